@@ -115,6 +115,8 @@ func NewSafeMapDataProvider[T any](m map[string]T) DataProvider {
 
 type EmptyDataProvider struct {
 	Underlying any
+	// tag of the source the (empty) record came from, if known. See GetKeyFromField
+	tag *string
 }
 
 func (e *EmptyDataProvider) Get(key string) any {
@@ -122,7 +124,8 @@ func (e *EmptyDataProvider) Get(key string) any {
 }
 
 func (e *EmptyDataProvider) GetByField(field reflect.StructField, fallback string) (any, string) {
-	return nil, fallback
+	// there is no data, but the key is still the one the field would have been read under: it names the field in the issues
+	return nil, GetKeyFromField(field, fallback, e.tag)
 }
 
 func (e *EmptyDataProvider) GetNestedProvider(key string) DataProvider {
